@@ -40,6 +40,7 @@ RULE += (
          'the attribute between two reads; 5 binders x 36 reader '
          'pairs); acquisition-wrapped callables in every source. ')
 RULE += ('Round 8: the call mapping and block mappings as dict subclasses that compute their answers (__missing__, overridden __getitem__) and as a mapping that is no dict. ')
+RULE += ('Round 10: loops over objects, texts and numbers in one sequence among the nesting blocks. ')
 ASSUMPTIONS = ['reference interpreter vf/model.py is trusted for (b)']
 
 SOURCES = harness.SOURCE_ORDER
